@@ -67,6 +67,9 @@ var c16Paths = []c16Path{
 		sc.Parts = [][]byte{[]byte(strings.Repeat("compressible ", 40))}
 		sc.DeclareLen = true
 	}},
+	// the backend sends an interim response (103 Early Hints) before the final one
+	{name: "interim-103-then-200", want: 200, reachesBackend: true, req: c16Get, script: func(sc *wire.Script) { sc.Interim = 103 }},
+	{name: "interim-103-then-500", want: 500, reachesBackend: true, req: c16Get, script: func(sc *wire.Script) { sc.Interim, sc.Status = 103, 500 }},
 	{name: "upgrade-declined-200", want: 200, reachesBackend: true, req: func() *wire.Request {
 		rq := c16Get()
 		rq.Header = append(rq.Header, wire.HeaderLine{"Connection", "Upgrade"}, wire.HeaderLine{"Upgrade", "websocket"})
@@ -94,6 +97,11 @@ var c16NameSets = []c16Names{
 	{"req-custom-trace-default", "X-Correlation-Token", "", "X-Correlation-Token", "X-Trace-ID", func(s string) string { return s }},
 	{"req-default-trace-custom", "", "X-Span", "X-Request-ID", "X-Span", func(s string) string { return s }},
 	{"padded", " X-Correlation-Token ", " X-Span ", "X-Correlation-Token", "X-Span", func(s string) string { return s }},
+	// a header field name is any token (RFC 9110 5.6.2): underscores (X_Request_ID, x-b3_traceid),
+	// dots, digits and the other token punctuation are all legal names
+	{"underscore", "X_Request_ID", "X-B3_TraceId", "X_Request_ID", "X-B3_TraceId", func(s string) string { return s }},
+	{"punctuation", "X.Req!#$%&'*+^`|~Id", "x~span.2", "X.Req!#$%&'*+^`|~Id", "x~span.2", func(s string) string { return s }},
+	{"one-letter-digits", "R", "t-1", "R", "t-1", strings.ToUpper},
 }
 
 var c16Values = []struct {
@@ -276,7 +284,7 @@ func TestVerifC16(t *testing.T) {
 		}
 	}
 	r.AddScenario(vres.Scenario{Name: "id-propagation-product", Engine: "W", Evaluations: evals, Distinct: int64(outs.N()), Outcomes: outs.N(),
-		Rule:  "request_id on/off x trace on/off x 6 header-name sets (default, custom, mixed, padded) x 11 response paths x 12 client value shapes (incl. one header only, distinct values, mixed case, delimiter characters) x backend silent / echoing / answering with foreign IDs; distinct = distinct (path, toggles, value shape) classes that produced the expected status",
+		Rule:  "request_id on/off x trace on/off x 9 header-name sets (default, custom, mixed, padded, underscores, token punctuation, one letter) x 11 response paths x 12 client value shapes (incl. one header only, distinct values, mixed case, delimiter characters) x backend silent / echoing / answering with foreign IDs; distinct = distinct (path, toggles, value shape) classes that produced the expected status",
 		Bound: "full product, one Helios instance per (toggles, names, path)", Exhaustive: true, Sample: sample,
 		Extra: map[string]interface{}{"wall_s": time.Since(start).Seconds()}})
 }
